@@ -152,7 +152,7 @@ func (c *cse) freePresent(u *user, not string) string {
 func (c *cse) ownLock(u *user) *lockRec {
 	var own []lockRec
 	for _, l := range c.table() {
-		if l.Owner == u.name && !u.dirty[l.Path] {
+		if l.Owner == u.ident && !u.dirty[l.Path] {
 			own = append(own, l)
 		}
 	}
@@ -166,7 +166,7 @@ func (c *cse) opOverlap(u *user, o opt) {
 	shape := o.mode
 	trig := "overlap-" + shape
 	// preconditions: the user holds locks, free paths exist
-	for i := 0; i < 3 && len(oursOf(c.table(), u.name)) < 2 && !c.abort; i++ {
+	for i := 0; i < 3 && len(oursOf(c.table(), u.ident)) < 2 && !c.abort; i++ {
 		if p := c.freePresent(u, ""); p != "" {
 			c.opLock(u, opt{path: p, noFault: true})
 		}
@@ -200,7 +200,7 @@ func (c *cse) opOverlap(u *user, o opt) {
 	cache := filepath.Join(u.dir, ".git", "lfs", "lockcache.db")
 	before := c.table()
 	sig0 := fileSig(cache)
-	h := &holdSpec{kind: holdKind, user: u.name, held: make(chan struct{}), release: make(chan struct{})}
+	h := &holdSpec{kind: holdKind, user: u.ident, held: make(chan struct{}), release: make(chan struct{})}
 	c.mu.Lock()
 	c.hold = h
 	c.mu.Unlock()
@@ -259,7 +259,7 @@ func (c *cse) opOverlap(u *user, o opt) {
 	if verifyIn && !finishedEarly {
 		if n, ok, _ := verifyOutcome(append(reqsA, reqsB...)); n > 0 && ok {
 			t := c.table()
-			u.exp, u.pol, u.lost, u.lostWhy = oursOf(t, u.name), theirsOf(t, u.name), map[string]string{}, ""
+			u.exp, u.pol, u.lost, u.lostWhy = oursOf(t, u.ident), theirsOf(t, u.ident), map[string]string{}, ""
 			u.candExp, u.candPol = nil, nil
 			u.snapVerifyOK = false
 			c.count("model_cache_replaced_by_verifiable_listing", 1)
@@ -278,6 +278,6 @@ func (c *cse) opOverlap(u *user, o opt) {
 	c.observe(u, trig, fixed)
 	// a flag-fixing command covering the paths of the overlap follows
 	if len(granted) > 0 {
-		c.queue = append([]step{{user: map[string]int{"alice": 0, "bob": 1}[u.name], op: "commit", o: opt{path: granted[0].Path}}}, c.queue...)
+		c.queue = append([]step{{user: c.indexOf(u), op: "commit", o: opt{path: granted[0].Path}}}, c.queue...)
 	}
 }
